@@ -495,7 +495,11 @@ def _main_body(a, prop, seed, mod, run):
             from . import src_tie, py2lean
             names = [t["lean"] for t in py2lean.TARGETS if t["func"] in tie["functions"]
                      and not tie["functions"][t["func"]].startswith("untranslatable")]
-            src_tie.run_src_tie(run, Rng(seed, prop + "/srctie"), a.tier, prop, names)
+            try:
+                for fn_, why_ in src_tie.run_src_tie(run, Rng(seed, prop + "/srctie"), a.tier, prop, names) or []:
+                    lost = list(lost) + [(fn_, "executable tie: " + why_)]
+            except Exception as e:   # the tie is an extra; its failure never decides a check
+                run.extra["src_tie_error"] = repr(e)[:300]
         for fn_, why_ in lost:
             print(f"SOURCE-TIE-LOST property={prop} function={fn_} {why_}")
         # SOURCE-TIE hook (end)
